@@ -11,6 +11,7 @@ DECIDES = ('for remove_knot x {curve, surface u/v, volume u/v/w}: same block/dir
 NOT_DECIDED = ('exactness of A5.8 outside the enumerated nets (degree 2 and 3, insert-then-remove histories at span interiors and at existing knots) and to floating-point rounding; knots that are removable without having been inserted by these histories; the tolerance of the removability test (decided with an exact-equality stand-in).')
 TECHNIQUE = 'axis-tag dataflow, stride rule in polynomial normal form, CFG dominance of guards, structural gather/scatter rules, bounded index-skeleton interpretation with working-copy tracking'
 DECIDES += (' [ABSTRACT INTERPRETATION, exact] KR3: helpers.knot_removal applied to a net in which u was inserted r times returns, for t = 1..r removals, exactly the net with r - t copies inserted (t = r: the original control points), as a polynomial identity in the control points over rational knots; the removability test is decided exactly. This decides Eqs. 5.28 / 5.29 (alpha_i, alpha_j with their removal-index offsets) and the final shift indices.')
+DECIDES += (' KD5: the setters store floats in fresh lists; TOL2: the multiplicity count compares every knot with the parameter through the tolerance.')
 
 
 def kv_pure(m, run, key):
